@@ -90,6 +90,14 @@ def _bitsel_build(par, n, a, o, p):
     return py4hw.BitsLSBF(par, n, a[0], bits)
 
 
+def _poploop_build(par, n, a, o, p):
+    from .behav_blocks import PopLoop
+    return PopLoop(par, n, a[0], o)
+
+
+OPS['PopLoop'] = (_poploop_build, lambda v, ws, w, p: bin(v[0]).count('1'))
+
+
 # Mealy: out = state + a (raw, reduced by the wire); the state is updated at the edge (see ref_trace)
 OPS['Mealy'] = (_mealy_build, None)
 OPS['BitSel'] = (_bitsel_build, lambda v, ws, w, p: (v[0] >> p['bit']) & 1)
@@ -465,6 +473,17 @@ class Wrapper(Logic):
         super().__init__(parent, name)
 
 
+class NamedWrapper(Wrapper):
+    """a wrapper class that provides its module name (structureName), like the user classes of the documentation"""
+
+    def __init__(self, parent, name, sname):
+        super().__init__(parent, name)
+        self._sname = sname
+
+    def structureName(self):
+        return self._sname
+
+
 class Built:
     pass
 
@@ -529,20 +548,31 @@ def build(desc, names=None, sysname=None, hook=None):
         o = b.group_obj.get(g)
         if o is None:
             par = gobj(groups[g]['parent'])
-            o = Wrapper(par, names.get('g%d' % g, 'grp%d' % g))
+            if groups[g].get('sname'):
+                o = NamedWrapper(par, names.get('g%d' % g, 'grp%d' % g), groups[g]['sname'])
+            else:
+                o = Wrapper(par, names.get('g%d' % g, 'grp%d' % g))
             b.group_obj[g] = o
         return o
 
     # 3. wires: owned by the lowest common ancestor of the driver and all users
     b.wire = {}
     owner = {}
+    per_owner = {}
     all_sigs = list(driver_group.keys())
 
     def make_wire(s):
         gs = {driver_group[s]} | users.get(s, set())
         own = _lca(desc, list(gs)) if -1 not in gs else -1
         owner[s] = own
-        b.wire[s] = gobj(own).wire(names.get(s, 'w_' + s if False else s), sig_w(desc, s))
+        if desc.get('scoped_wire_names') and s not in names:
+            # wire names are unique only inside the block that owns the wire: every scope numbers its wires from 0, so a
+            # block's internal wire regularly carries the name of an outer wire that reaches the block through a port
+            per_owner[own] = per_owner.get(own, 0) + 1
+            wname = 'net{}'.format(per_owner[own] - 1)
+        else:
+            wname = names.get(s, s)
+        b.wire[s] = gobj(own).wire(wname, sig_w(desc, s))
 
     # 4. instantiate in the requested order; wires are created on demand (py4hw allows readers before drivers)
     b.node_obj = {}
